@@ -86,10 +86,15 @@ def snap_module(mod, out, pre, in_project, depth=0):
         if f == "scale" and type(mod).__name__ == "Smooth":
             continue  # the controller of the same name shadows the common attribute
         out[pre + (f,)] = canon(getattr(mod, f))
+    # placement and visualization are attributes of every module; they are *serialized*
+    # only inside a project, so stand-alone synth round trips do not compare them
+    for f in MODULE_FIELDS_IN_PROJECT:
+        out[pre + (("unsaved",) if not in_project else ()) + (f,)] = canon(getattr(mod, f))
+    try:
+        out[pre + (("unsaved",) if not in_project else ()) + ("visualization",)] = int(mod.visualization)
+    except TypeError:
+        out[pre + (("unsaved",) if not in_project else ()) + ("visualization",)] = "<%s>" % type(mod._visualization).__name__
     if in_project:
-        for f in MODULE_FIELDS_IN_PROJECT:
-            out[pre + (f,)] = canon(getattr(mod, f))
-        out[pre + ("visualization",)] = int(mod.visualization)
         out[pre + ("links", "in")] = strip_links(mod.in_links)
         out[pre + ("links", "in_slots")] = strip_links(mod.in_link_slots)
         out[pre + ("links", "out")] = strip_links(mod.out_links)
